@@ -19,16 +19,20 @@ for p in props:
         rc,out=sh(env+'cargo test --lib --offline 2>&1 | tail -4')
         lib_ok='73 passed; 0 failed' in out
         os.makedirs(f'{wt}/tests',exist_ok=True); shutil.copy(f'{d}/demo.rs',f'{wt}/tests/demo.rs')
-        rc1,out1=sh(env+'cargo test --test demo --offline 2>&1 | tail -6')
+        feat=''
+        try:
+            if json.load(open(f'{d}/meta.json')).get('no_std_only'): feat=' --no-default-features --features hashbrown,libm'
+        except Exception: pass
+        rc1,out1=sh(env+f'cargo test --test demo --offline{feat} 2>&1 | tail -6')
         fails_with = ('test result: FAILED' in out1) or ('error: test failed' in out1)
         sh(env+'git checkout -- src')
-        rc2,out2=sh(env+'cargo test --test demo --offline 2>&1 | tail -6')
+        rc2,out2=sh(env+f'cargo test --test demo --offline{feat} 2>&1 | tail -6')
         passes_without = ('test result: ok' in out2) and ('FAILED' not in out2)
         sh(env+'rm -rf tests; git checkout -- .')
         ok = lib_ok and fails_with and passes_without
         print(p,mu,'CONFIRMED' if ok else f'REJECTED lib_ok={lib_ok} fails_with={fails_with} passes_without={passes_without}', flush=True)
         if ok:
-            sid=f'{p}-{mu[-1]}'
+            sid=f'{p[:3]}-{mu[-1]}{p[3:]}'
             dst=f'/verif/seeded/{sid}'
             os.makedirs(dst,exist_ok=True)
             shutil.copy(f'{d}/patch.diff',dst); shutil.copy(f'{d}/demo.rs',dst)
